@@ -387,7 +387,7 @@ fn kit_applicable(c: &KitCase) -> bool {
     if !form.pre.is_empty() || !form.post.is_empty() {
         return false; // code around the comment on its line would be part of the first key
     }
-    if form.kind == FormKind::Md && form.open == "(" && matches!(c.rule, Rule::SortedRegex | Rule::UniqueRegex | Rule::UniqueRegexEol) {
+    if form.kind == FormKind::Md && form.open.ends_with('(') && matches!(c.rule, Rule::SortedRegex | Rule::UniqueRegex | Rule::UniqueRegexEol) {
         return false; // a title delimited by parentheses cannot hold the group's parentheses
     }
     if !c.rule.key_range() && c.position != 0 {
